@@ -33,7 +33,7 @@ STATE_MEASURE = "(policy, db kind, store fault kind, table-coverage class of the
 PROBES = [
     "lookup_tabulated", "lookup_fallback_pass", "lookup_fallback_warning_logged", "lookup_fallback_error_raised", "invalid_policy_config_error", "eop_exception_cached",
     "healed_after_restart", "late_arrival_without_restart", "day_boundary_date", "table_edge_date", "uncovered_date", "twin_equal_and_hash_checked", "range_negative_step",
-    "range_abandoned_then_reiterated", "range_interleaved", "membership_other_scale_near_end", "now_under_clock_jump", "policy_flipped", "db_flipped", "flaky_day_hit",
+    "range_abandoned_then_reiterated", "range_interleaved", "membership_other_scale_near_end", "now_under_clock_jump", "policy_flipped", "db_flipped", "flaky_day_hit", "sub_microsecond_reading_before_tai_midnight",
 ]
 REAL_VS_STUB = "real: beyond.dates.date (Date, DateRange, Timescale), beyond.dates.eop (readers, SimpleEopDatabase, EopDb, policies), config; stub: Path seen by eop.py (simulated disk with faults), datetime seen by date.py (virtual wall clock), extra registered databases (zero / flaky / raising); model: sim/models/timescales.py"
 ASSUMPTIONS = [
@@ -91,6 +91,12 @@ def gen_life(rng, first):
         op = {"op": k}
         if k == "date":
             op.update(ctor=rng.choice(["ymd", "mjd_pair", "datetime", "mjd_float", "copy"]), scale=rng.choice(SCALES), day=gen_day(rng), us=gen_us(rng))
+            if rng.random() < 0.2:
+                # a reading carrying a fraction of a microsecond (seconds given as a float), placed so that the instant is just before /
+                # after a TAI midnight: the last microsecond of the TAI day is where a rounding carries into the day number
+                sc = rng.choice(["TAI", "TT", "GPS"])
+                off = {"TAI": 0, "TT": 32184000, "GPS": -19000000}[sc]
+                op.update(ctor="mjd_pair", scale=sc, us=(ts.US_DAY - 1 + off) % ts.US_DAY, sub_us=rng.choice([0.6, 0.9, 0.75, 0.2]))
             if life["dbname"] == "flaky" and rng.random() < 0.4:
                 op["day"] = rng.choice(life["flaky_days"])
         elif k == "twin":
@@ -205,6 +211,7 @@ class World:
         self.pool = []  # (Date, scale name, model reading us, model TAI instant us or None)
         self.node = None
         self.nontrivial_armed = False
+        self.sub_us = 0.0
 
     # -- a node life ----------------------------------------------------------
     def start_life(self, j):
@@ -298,7 +305,7 @@ class World:
             return out
         return set(from_tables(tables))
 
-    def judge_lookup(self, fn, mjd_float, what, from_result=False):
+    def judge_lookup(self, fn, mjd_float, what, from_result=False, also=()):
         """Run fn() (which performs exactly one Date construction = one EOP lookup at mjd_float) and judge the outcome.
         Returns (date or None, class) with class in 'tab' / 'fallback' / None."""
         ctx = self.ctx
@@ -329,6 +336,8 @@ class World:
             acc = self.acceptable(mjd_float) | self.acceptable(mjd_float - 0.002 / 86400) | self.acceptable(mjd_float + 0.002 / 86400)
         else:
             acc = self.acceptable(mjd_float)
+        for other in also:
+            acc = acc | self.acceptable(other)
         warns = [r for r in handler.records if r.levelno >= logging.WARNING]
         eopmod = self.node.mod("beyond.dates.eop")
         errmod = self.node.mod("beyond.errors")
@@ -410,7 +419,7 @@ class World:
         if ctor == "ymd":
             return Date(dt.year, dt.month, dt.day, dt.hour, dt.minute, dt.second, dt.microsecond, scale=scale)
         if ctor == "mjd_pair":
-            return Date(day, us / 1e6, scale=scale)
+            return Date(day, (us + self.sub_us) / 1e6, scale=scale)
         if ctor == "datetime":
             return Date(dt, scale=scale)
         if ctor == "mjd_float":
@@ -420,6 +429,16 @@ class World:
     def op_date(self, op, where):
         ctx = self.ctx
         scale, day, us = op["scale"], op["day"], op["us"]
+        self.sub_us = float(op.get("sub_us", 0.0))
+        if self.sub_us:
+            ctx.probe("sub_microsecond_reading_before_tai_midnight")
+        try:
+            self._op_date(op, where, scale, day, us)
+        finally:
+            self.sub_us = 0.0
+
+    def _op_date(self, op, where, scale, day, us):
+        ctx = self.ctx
         if op["ctor"] == "mjd_float":
             us = (us // 10**6) * 10**6
         mjd_float = day + us / ts.US_DAY
@@ -431,7 +450,9 @@ class World:
             ctx.probe("table_edge_date")
         if not (FIRST_DAY <= day <= LAST_DAY):
             ctx.probe("uncovered_date")
-        d, cls = self.judge_lookup(lambda: self.build(op["ctor"], scale, day, us), mjd_float, where)
+        # a reading in the last microsecond of its own day: day + s / 86400 rounds to the next integer in double precision
+        also = (day + 1.0,) if (self.sub_us and us >= ts.US_DAY - 1) else ()
+        d, cls = self.judge_lookup(lambda: self.build(op["ctor"], scale, day, us), mjd_float, where, also=also)
         if d is None or cls is None:
             return
         if op["ctor"] == "copy":
